@@ -99,8 +99,14 @@ class Sandbox(object):
         return self.abs + '/' if a == '<abs>' else a
 
 
+# Canary files directly below the file system's root directory. The sandbox cannot create them, so they are an
+# environment answer the harness owns: while a build runs, os.path.isfile / exists say they are there and open() hands out
+# their content -- and records the open like any other.
+ROOT_CANARIES = ['/init.lua', '/x.lua', '/lib.lua', '/.lua', '/x', '/lib', '/x/init.lua', '/lib/init.lua']
+
+
 class OpenTracer(object):
-    """Records every open() of a path inside the sandbox."""
+    """Records every open() of a path inside the sandbox (and of the canaries below the file system root)."""
 
     def __init__(self, sb):
         self.sb = sb
@@ -109,9 +115,28 @@ class OpenTracer(object):
     def __enter__(self):
         self._open = builtins.open
         self._ioopen = io.open
+        self._isfile = os.path.isfile
+        self._exists = os.path.exists
         tracer = self
 
+        def root_canary(file):
+            try:
+                if isinstance(file, (str, bytes, os.PathLike)):
+                    q = os.fsdecode(file)
+                    if q.startswith('/') and os.path.normpath(q) in ROOT_CANARIES and not tracer._exists(q):
+                        return os.path.normpath(q)
+            except Exception:
+                pass
+            return None
+
         def traced(file, *a, **k):
+            rc_ = root_canary(file)
+            if rc_ is not None:
+                mode = a[0] if a else k.get('mode', 'r')
+                tracer.log.append((rc_, mode))
+                if 'b' in mode:
+                    return io.BytesIO(b'v=1\n')
+                return io.StringIO('v=1\n')
             try:
                 if isinstance(file, (str, bytes, os.PathLike)):
                     p = os.fsdecode(file)
@@ -122,13 +147,23 @@ class OpenTracer(object):
             except Exception:
                 pass
             return tracer._open(file, *a, **k)
+
+        def isfile(path):
+            return True if root_canary(path) is not None else tracer._isfile(path)
+
+        def exists(path):
+            return True if root_canary(path) is not None else tracer._exists(path)
         builtins.open = traced
         io.open = traced
+        os.path.isfile = isfile
+        os.path.exists = exists
         return self
 
     def __exit__(self, *exc):
         builtins.open = self._open
         io.open = self._ioopen
+        os.path.isfile = self._isfile
+        os.path.exists = self._exists
         return False
 
 
@@ -137,6 +172,8 @@ def under(path, root):
 
 
 def location_class(sb, rp):
+    if rp in ROOT_CANARIES:
+        return 'file-system-root'
     rel = os.path.relpath(rp, sb.root)
     if any(part in ('FOO', 'LIBS', 'CARTS', 'CARTS2') for part in rel.split(os.sep)):
         return 'root-name-in-other-letter-case'
